@@ -283,14 +283,14 @@ theorem parseFile_none {h : Hooks} {fuel : Nat} {buf : Bytes} {st st' : St}
 theorem parseFiles_cons_inv {h : Hooks} {fuel : Nat} {data : Bytes} {offset lh length : Nat} {st st1 : St}
     {f : File} {fs : List File} {free : Nat}
     (hp : parseFiles h fuel data offset lh length st = .ok (f :: fs, free, st1)) :
-    ∃ fuel0 st2, fuel = fuel0 + 1 ∧ offset < lh ∧ align8 offset < data.length ∧
+    ∃ fuel0 st2, fuel = fuel0 + 1 ∧ offset ≤ lh ∧ align8 offset < data.length ∧
       parseFile h fuel0 (data.drop (align8 offset)) st = .ok (some f, st2) ∧ f.info.extSize ≠ 0 ∧
       parseFiles h fuel0 data (align8 offset + f.info.extSize) lh length st2 = .ok (fs, free, st1) := by
   cases fuel with
   | zero => simp [parseFiles] at hp
   | succ fuel0 =>
     rw [parseFiles] at hp
-    by_cases h1 : offset < lh
+    by_cases h1 : offset ≤ lh
     · simp only [h1, if_true] at hp
       by_cases h2 : data.length ≤ align8 offset
       · simp [h2] at hp
